@@ -1,6 +1,6 @@
 (* Property C20 - the log limiter drops only exact repeats inside the interval. *)
 From Coq Require Import List ZArith Bool Arith.
-From TR Require Import model.LogLimiter proofs.LogLimiterProofs.
+From TR Require Import model.LogLimiter proofs.LogLimiterProofs model.ThrExt proofs.TieCorollaries.
 Import ListNotations.
 Open Scope Z_scope.
 
@@ -16,6 +16,22 @@ Proof. exact lrun_must_print. Qed.
 
 Theorem C20_spec : forall interval h, spec_log interval h (lrun interval linit h) = true.
 Proof. exact lrun_spec. Qed.
+
+(* The same about the Gallina translation of loglimiter/loglimiter.go as it is in /repo now
+   (coq/translated/LogLimiter.v, regenerated on every run; the clock and log.Print are the calls
+   that leave it): for every injective naming of the messages by strings (0 = the empty string),
+   every interval and history, the messages that reach log.Print satisfy the specification, and
+   a printed line is the message itself, once. *)
+Theorem C20_spec_source : forall (enc : Z -> String.string),
+    (forall a b, enc a = enc b -> a = b) -> enc 0 = String.EmptyString ->
+    forall interval h, spec_log interval h (src_lbits enc interval h) = true.
+Proof. exact spec_log_source. Qed.
+
+Theorem C20_printed_unmodified_source : forall (enc : Z -> String.string),
+    (forall a b, enc a = enc b -> a = b) -> enc 0 = String.EmptyString ->
+    forall interval h,
+      Forall2 (fun o mt => o = [] \/ o = [enc (fst mt)]) (src_lrun enc (ll_init interval) h) h.
+Proof. exact printed_unmodified_source. Qed.
 
 Theorem C20_distinct_never_dropped : forall interval h n m t,
     nth_error h n = Some (m, t) ->
